@@ -161,11 +161,59 @@ def run(ctx):
     ctx.coverage["correspondences"] = {"object backend vs independent float64 geometry (ranges, signs, predicates)": {"ok": not ctx.failures}}
 
 
+def boundary_axis(ctx):
+    """vectors exactly on the +-z axis, on the x / y axes and in the z = 0 plane, in the storages that represent them (z storage),
+    with IEEE arithmetic (NumPy arrays, Awkward arrays, objects holding numpy scalars): costheta and cottheta have the sign of z
+    (+-1 and +-inf on the axis, 0 in the plane), theta is 0 / pi / pi/2, eta is +-inf with the sign of z on the axis"""
+    import awkward as ak
+    import vector
+    n = 0
+    pts = [(0.0, 0.0, 2.5), (0.0, 0.0, -2.5), (0.0, 0.0, 1e-3), (0.0, 0.0, -4e5), (1.5, 0.0, 0.0), (0.0, -1.5, 0.0), (-2.0, 0.0, 0.0), (1.0, 1.0, 0.0)]
+    with numpy.errstate(all="ignore"):
+        for names in (("x", "y", "z"), ("rho", "phi", "z"), ("x", "y", "z", "t"), ("rho", "phi", "z", "tau"), ("rho", "phi", "z", "t"), ("x", "y", "z", "tau")):
+            for mom in (False, True):
+                cols = {}
+                for x, y, z in pts:
+                    c = H.from_cart(names[:3], x, y, z)
+                    c.update({"t": 10.0, "tau": 3.0})
+                    for k in names:
+                        cols.setdefault(H.MOM.get(k, k) if mom else k, []).append(c[k])
+                arrs = {"numpy": vector.array({k: numpy.array(v) for k, v in cols.items()}),
+                        "awkward": vector.Array(ak.zip({k: ak.Array(v) for k, v in cols.items()})),
+                        "object(numpy scalars)": [vector.obj(**{k: numpy.float64(v[i]) for k, v in cols.items()}) for i in range(len(pts))]}
+                for be, a in arrs.items():
+                    for q in ("costheta", "cottheta", "theta", "eta"):
+                        n += 1
+                        try:
+                            vals = [float(getattr(o, q)) for o in a] if isinstance(a, list) else [float(v) for v in (numpy.asarray(getattr(a, q)) if be == "numpy" else ak.to_list(getattr(a, q)))]
+                        except Exception as e:
+                            ctx.fail(f"boundary:{be}:{H.sysname(names)}:{q}", f"raises {type(e).__name__}: {e}"[:200], {"points": pts})
+                            continue
+                        for (x, y, z), v in zip(pts, vals):
+                            rho = math.hypot(x, y)
+                            sz = (z > 0) - (z < 0)
+                            if q in ("costheta", "cottheta", "eta"):
+                                ok = (not math.isnan(v)) and ((v > 0) - (v < 0)) == sz
+                                if q == "costheta" and rho == 0:
+                                    ok = ok and abs(v) == 1.0
+                                if q in ("cottheta", "eta") and rho == 0:
+                                    ok = ok and math.isinf(v)
+                            else:
+                                want = (0.0 if z > 0 else math.pi) if rho == 0 else (math.pi / 2 if z == 0 else math.atan2(rho, z))
+                                ok = 0.0 <= v <= math.pi and abs(v - want) < 1e-12
+                            if not ok:
+                                ctx.fail(f"boundary:{be}:{H.sysname(names)}:{'momentum' if mom else 'generic'}:{q}",
+                                         f"{q} = {v!r} for the vector (x, y, z) = {(x, y, z)} stored as {names} ({be}); z has sign {sz}", {"point": [x, y, z], "names": list(names)})
+    return n
+
+
 _run_without_compiled = run
 
 
 def run(ctx):
     _run_without_compiled(ctx)
+    ctx.coverage["evaluations"] = ctx.coverage.get("evaluations", 0) + boundary_axis(ctx)
+    ctx.coverage["correspondences"]["boundary strata (on the z axis, on the x / y axes, in the z = 0 plane) on NumPy / Awkward / numpy-scalar objects"] = {"ok": not any(f["site"].startswith("boundary:") for f in ctx.failures)}
     from tools import nbrows
     nbrows.check(ctx, ['phi', 'theta', 'eta', 'rho', 'rho2', 'mag', 'mag2', 'costheta', 'cottheta', 't', 't2', 'tau', 'tau2', 'beta', 'gamma', 'rapidity', 'deltaphi', 'deltaangle', 'deltaeta', 'deltaR', 'deltaR2', 'deltaRapidityPhi', 'deltaRapidityPhi2', 'is_timelike', 'is_spacelike', 'is_lightlike', 'is_timelike_tol', 'is_spacelike_tol', 'is_parallel', 'is_antiparallel', 'is_perpendicular', 'is_parallel_tol'], 'the ranged quantities and predicates')
 
